@@ -323,6 +323,8 @@ M("C16", "key tuple order changed", F, "setuptools_v65_version.py", "    return 
 M("C16", "parse falls back on any ValueError", F, "setuptools_v65_version.py", "    try:\n        return Version(version)\n    except InvalidVersion:\n        return LegacyVersion(version)", "    try:\n        return Version(version)\n    except Exception:\n        return LegacyVersion(version)", "fallback")
 M("C16", "regex loses the end anchor", F, "setuptools_v65_version.py", "re.compile(r\"^\\s*\" + VERSION_PATTERN + r\"\\s*$\", re.VERBOSE | re.IGNORECASE)", "re.compile(r\"^\\s*\" + VERSION_PATTERN + r\"\\s*\", re.VERBOSE | re.IGNORECASE)", "anchored")
 M("C16", "tags sorted as strings", F, "cli.py", "version_tags.sort(key=version.parse_version, reverse=True)", "version_tags.sort(key=str, reverse=True)", "sorted without")
+M("C16", "post spelling `r` dropped from VERSION_PATTERN", F, "setuptools_v65_version.py", "(?P<post_l>post|rev|r)", "(?P<post_l>post|rev)", "VERSION_PATTERN")
+M("C16", "twin: dev group spelled d(?:ev)", S, "setuptools_v65_version.py", "(?P<dev_l>dev)", "(?P<dev_l>d(?:ev))")
 M("C16", "trailing zeros kept", F, "setuptools_v65_version.py", "    _release = tuple(reversed(list(itertools.dropwhile(lambda x: x == 0, reversed(release)))))", "    _release = tuple(release)", "_cmpkey")
 
 # =============================================================================== C17
